@@ -189,6 +189,24 @@ func isFloatT(t types.Type) bool {
 	return ok && b.Info()&types.IsFloat != 0
 }
 
+// bvOf: in bit-vector mode fixed-width integer types are bit-vectors; int / int64 stay mathematical
+// (lengths and indices), so int2bv / bv2nat appear only at explicit Go conversions.
+func (x *Exec) bvOf(t types.Type) (int, bool) {
+	if !x.bv {
+		return 0, false
+	}
+	b, ok := under(t).(*types.Basic)
+	if !ok || b.Info()&types.IsInteger == 0 {
+		return 0, false
+	}
+	switch b.Kind() {
+	case types.Int, types.Int64, types.UntypedInt, types.UntypedRune:
+		return 0, false
+	}
+	bits, _, ok := intInfo(t)
+	return bits, ok
+}
+
 func isErrorT(t types.Type) bool {
 	return types.Identical(t, types.Universe.Lookup("error").Type())
 }
@@ -247,7 +265,7 @@ func (x *Exec) elemSort(t types.Type) *Sort {
 		if u.Info()&types.IsString != 0 {
 			return SBytes
 		}
-		if bits, _, ok := intInfo(t); ok && x.bv {
+		if bits, ok := x.bvOf(t); ok {
 			return SBV(bits)
 		}
 		return SInt
@@ -275,8 +293,7 @@ func (x *Exec) freshValue(st *State, t types.Type, name string, input bool) Valu
 			c := Fresh(name, SBytes)
 			return c
 		case u.Info()&types.IsInteger != 0:
-			bits, _, _ := intInfo(t)
-			if x.bv {
+			if bits, ok := x.bvOf(t); ok {
 				return Fresh(name, SBV(bits))
 			}
 			c := Fresh(name, SInt)
@@ -394,8 +411,7 @@ func (x *Exec) zeroValue(st *State, t types.Type) Value {
 		case u.Info()&types.IsString != 0:
 			return TEps
 		case u.Info()&types.IsInteger != 0:
-			if x.bv {
-				bits, _, _ := intInfo(t)
+			if bits, ok := x.bvOf(t); ok {
 				return BVLit(big.NewInt(0), bits)
 			}
 			return IntLit(0)
